@@ -7,7 +7,7 @@ REFRESH = [k for k in gen.FORMATS if k not in ("df19", "df24")]
 class C12(PropBase):
     id = "C12"
     corr_fields = ['age']
-    lean_modules = ["SqModel.Props.C12", "SqModel.Proofs.BridgePlane"]
+    lean_modules = ["SqModel.Props.C12", "SqModel.Proofs.BridgePlane", "SqModel.Proofs.BridgeTable"]
     extractors = ["trans"]
     rule = ("schedules of reader runs (segments of 1..40 lines) and silences for 2-5 aircraft; silence lengths delete_after-0.5, "
             "+0.5, 0.5 and 10x delete_after (virtual clock: the time stamps of all rows are shifted back between runs); "
